@@ -55,7 +55,7 @@ def _safe_load(node: PNode | PProvisionalNode, task: PTask, is_product: bool) ->
 
 
 @hookimpl
-def pytask_execute_task(session: Session, task: PTask) -> None:
+def pytask_execute_task(session: Session, task: PTask) -> bool | None:
     """Execute task generators and collect the tasks."""
     if is_task_generator(task):
         kwargs = {}
@@ -109,6 +109,8 @@ def pytask_execute_task(session: Session, task: PTask) -> None:
         session.collection_reports.append(report)
 
         recreate_dag(session, task)
+        return True
+    return None
 
 
 @hookimpl
